@@ -284,7 +284,7 @@ def genSupOperand : GS Stmt := do
 
 partial def genSupNTree (sym : Sym) (n : Nat) : GS NTree := do
   if n ≤ 1 then
-    let anno ← liftG (pick [none, none, none, some "ctx=z"])
+    let anno ← liftG (pick [none, none, none, some "ctx=z", some "k=v,prop=w"])
     pure (.one { sym := sym, anno := anno.map String.toList } (← genSupOperand))
   else
     let k ← liftG (range 1 (n - 1))
@@ -313,7 +313,8 @@ def genSupC02 (depth : Nat) : G Stmt := do
       let syms ← distinctSyms m Sym.nestables
       for sym in syms do
         if (← liftG (chance 1 2)) then
-          let anno ← liftG (pick [none, none, some "ctx=y"])
+          -- the annotation may itself contain the property marker ",p" (`[ref=1,part=2]`)
+          let anno ← liftG (pick [none, none, some "ctx=y", some "ref=1,part=2"])
           -- distinct suffixes, so that no property matches a component (that is C16's subject)
           let sfx ← liftG (pick [none, none, none, some (toString (parts.length + 1))])
           let inner ← genSupNested (depth - 1)
